@@ -62,6 +62,49 @@ func main() {
 			die(err)
 		}
 		out(true, "new", "")
+	case "prepare-none":
+		// a wallet directory without the wallet (the state before its first save)
+		if err := os.MkdirAll(dir, 0700); err != nil {
+			die(err)
+		}
+		out(true, "old", "")
+	case "create-wallet":
+		// the very first save of a wallet: the service creates it
+		cfg := wallet.NewConfig()
+		cfg.WalletDir = dir
+		cfg.EnableWalletAPI = true
+		s, err := wallet.NewService(cfg)
+		if err != nil {
+			die(err)
+		}
+		if _, err := s.CreateWallet(wname, wallet.Options{Type: wallet.WalletTypeDeterministic, Seed: "a seed for the crash test", Label: "new", GenerateN: 3}); err != nil {
+			die(err)
+		}
+		out(true, "new", "")
+	case "load-wallet-or-none":
+		// as load-wallet, but the previous state is "no such wallet yet"
+		cfg := wallet.NewConfig()
+		cfg.WalletDir = dir
+		cfg.EnableWalletAPI = true
+		s, err := wallet.NewService(cfg)
+		if err != nil {
+			die(err)
+		}
+		ws, err := s.GetWallets()
+		if err != nil {
+			die(err)
+		}
+		w, ok := ws[wname]
+		if !ok {
+			out(true, "old", "")
+			return
+		}
+		es, _ := w.GetEntries()
+		if w.Label() == "new" && len(es) == 3 {
+			out(true, "new", "")
+		} else {
+			out(true, "other", "")
+		}
 	case "newaddr-wallet":
 		// the service-level path: NewAddresses checks that the file is writable, derives one more address and saves
 		cfg := wallet.NewConfig()
